@@ -195,6 +195,8 @@ impl CroppedRegion {
 }
 
 fn line_count_including_trailing_empty_line(text: &str) -> usize {
+    // Count lines as YAML does: a lone CR is a line break too.
+    let text = crate::de_snipped::normalize_line_breaks(text);
     let mut lines = text.split_terminator('\n').count().max(1);
     if text.ends_with('\n') {
         lines = lines.saturating_add(1);
